@@ -24,7 +24,7 @@ def run(prop, tier, seed, t0):
     for g in glob.glob(os.path.join(build.REPO, 'tests', 'golden-decompression', '*.zst')):
         shutil.copy(g, os.path.join(d, 'base', 'plain', 'golden-' + os.path.basename(g)))
     gres = core.Result()
-    R.run_range(gres, exe['plain'], ['mode=gen', 'dir=' + d, 'ncomp=%d' % (3000 if thorough else 350), 'nforge=%d' % (80 if thorough else 8), 'nstraddle=%d' % (4000 if thorough else 160)], 0, 1, label='h_c04/plain', variant='plain')
+    R.run_range(gres, exe['plain'], ['mode=gen', 'dir=' + d, 'ncomp=%d' % (3000 if thorough else 350), 'nforge=%d' % (80 if thorough else 8), 'nstraddle=%d' % (4000 if thorough else 160), 'nfdict=%d' % (1500 if thorough else 60)], 0, 1, label='h_c04/plain', variant='plain')
     nframes = int(gres.other.get('GEN', [['0']])[0][0])
     forged = gres.other.get('FORGED', []); forge_refused = gres.other.get('FORGE-REFUSED', [])
     viol_gen = [{'key': 'generator:forged-valid-parse-refused-by-compressSequences', 'case': 0, 'msg': str(f), 'replay': {'label': 'h_c04/plain', 'args': [], 'seed': seed, 'case': 0}} for f in forge_refused]
@@ -110,10 +110,10 @@ def run(prop, tier, seed, t0):
     nmut = sum(1 for f in rtab.values() if f[3] == 'mut'); nmut_ok = sum(1 for f in rtab.values() if f[3] == 'mut' and f[0] == 'OK')
     cov = {
         'evaluations': ncmp + nagree, 'distinct_nontrivial': nvalid,
-        'rule': 'frame set = tests/decodecorpus.c frames built from the tree (with and without dictionary; format features the compressor never emits), golden files, compressor output aimed at long offsets / big windows / >64 KiB literal sections / dictionaries, tiny dictionary frames whose matches start in the dictionary and run on into the first bytes of the frame itself (forged parses and compress2), plus bit-flipped copies; '
+        'rule': 'frame set = tests/decodecorpus.c frames built from the tree (with and without dictionary; format features the compressor never emits), golden files, compressor output aimed at long offsets / big windows / >64 KiB literal sections / dictionaries, tiny dictionary frames whose matches start in the dictionary and run on into the first bytes of the frame itself (forged parses and compress2), tiny frames over assembled formatted dictionaries whose start repeat offsets are not 1/4/8 with first matches exactly at those offsets, plus bit-flipped copies; '
                 'R (independent decoder, forked for mutated input) decides validity and the expected bytes; each frame goes through 14 decode paths {one-shot, one-shot / stableOut / DDict into a guard-paged destination of exactly the content size, 2 streaming segmentations, streaming on a context sized by another frame, stableOut, disableHuffmanAssembly, buffer-less, in-place with advertised margin, DDict cold/warm/streaming} in 9 build variants '
                 '{default asm+BMI2, no asm, no BMI2, HUF X1, HUF X2, short / long(prefetch) sequence decoder, no legacy, ASan}; valid frames must succeed with R\'s bytes everywhere; all frames must get the same verdict and bytes on every path. distinct non-trivial = valid base frames compared',
-        'frames_under_valgrind_memcheck': nvg, 'frames': len(frames), 'forged_parse_frames': len(forged), 'dictionary_straddling_match_frames': len(gres.other.get('STRADDLE', [])), 'forged_parse_sequences': sum(int(f[1]) for f in forged), 'valid_base_frames': nvalid, 'mutated_frames': nmut, 'mutated_frames_still_valid_per_R': nmut_ok, 'path_x_variant_comparisons': ncmp, 'frames_with_full_agreement': nagree, 'invalid_frames_with_path_disagreement(out of scope)': res_all.stats.get('invalid_frames_with_path_disagreement(out of scope)', 0), 'paths': sorted(paths_seen), 'variants': VARIANTS,
+        'frames_under_valgrind_memcheck': nvg, 'frames': len(frames), 'forged_parse_frames': len(forged), 'dictionary_straddling_match_frames': len(gres.other.get('STRADDLE', [])), 'frames_with_assembled_formatted_dictionaries(odd start repeat offsets)': len(gres.other.get('FDICT', [])), 'forged_parse_sequences': sum(int(f[1]) for f in forged), 'valid_base_frames': nvalid, 'mutated_frames': nmut, 'mutated_frames_still_valid_per_R': nmut_ok, 'path_x_variant_comparisons': ncmp, 'frames_with_full_agreement': nagree, 'invalid_frames_with_path_disagreement(out of scope)': res_all.stats.get('invalid_frames_with_path_disagreement(out of scope)', 0), 'paths': sorted(paths_seen), 'variants': VARIANTS,
         'features_in_valid_frames(R events)': {k: v for k, v in ref.stats.items() if k.startswith('feat_')}, 'sequence_mode_bytes_seen': ref.ncells('seq_modes'),
         'samples': [{'frame': f, 'R': rtab[f][0], 'bytes': rtab[f][1], 'kind': rtab[f][3]} for f in frames[:: max(1, len(frames) // 6)]][:8],
     }
